@@ -87,7 +87,8 @@ def run(ctx, prop=None):
     for p in summ.get("panics") or []:
         cid = int(p.split()[1].rstrip(":"))
         rp = V.write_replay(ctx, "panic-%d" % cid, {"kind": "correspondence", "engine": "brokerh", "what": p, "case": cases.get(cid)})
-        ctx.violations.append({"match": "panic", "replay": rp, "what": "Broker panicked: " + p})
+        ctx.violations.append({"match": "broker:hang" if "HANG" in p else "panic", "replay": rp,
+                               "what": ("a Broker call did not return: " if "HANG" in p else "Broker panicked: ") + p})
     race = summ.get("overwrite_race")
     if race:
         part["overwrite_race_search"] = {k: race[k] for k in race if k != "violations"}
@@ -177,3 +178,30 @@ def replay(ctx, rec, path):
     mism, failures = V.eval_shards(ctx, summ["files"])
     print("model vs implementation mismatches (case, step, op, kind):", mism, failures)
     return 1 if (mism or failures or summ.get("panics")) else 0
+
+
+def hang_part(ctx):
+    """for C12: random registry histories (wrapped / unclosable / nil-unwrap nodes, close failures) run under brokerh's
+    per-history watchdog; only calls that do not return (or panic) are reported"""
+    part = {}
+    ctx.coverage["parts"]["broker-call-watchdog"] = part
+    binp, out = V.go_build(ctx, "./cmd/brokerh")
+    if not binp:
+        part["error"] = "brokerh does not build"
+        return
+    cdir = os.path.join(ctx.work, "broker-hang")
+    os.makedirs(cdir, exist_ok=True)
+    n = "300" if ctx.tier == "quick" else "3000"
+    rc, out = V.run([binp, "-out", cdir, "-prefix", "cases", "-modes", "random", "-random", n, "-random-len", "40"], env=dict(os.environ, VERIF_SEED=str(ctx.seed)), timeout=3000)
+    summ = json.load(open(os.path.join(cdir, "cases_summary.json")))
+    cases = {}
+    for line in open(os.path.join(cdir, "cases.jsonl")):
+        c = json.loads(line)
+        cases[c["id"]] = c
+    V.prune_shards(summ["files"])
+    part.update({"histories": summ["cases"], "hangs_or_panics": len(summ.get("panics") or [])})
+    ctx.coverage["evaluations"] += summ["cases"]
+    for p in (summ.get("panics") or [])[:3]:
+        cid = int(p.split()[1].rstrip(":"))
+        rp = V.write_replay(ctx, "broker-call-%d" % cid, {"kind": "search", "engine": "brokerh", "what": p, "case": cases.get(cid)})
+        ctx.violations.append({"match": "broker:hang" if "HANG" in p else "broker:panic", "replay": rp, "what": "C12: " + p})
